@@ -205,8 +205,23 @@ fn note_clone(_c: &LazyValue<'static>) {
     trace::bump(C::lazy_clones);
 }
 
+/// Let the other simulated threads run while the caller keeps a reference it got from the library.
+fn hold_across_yields() {
+    if sched::baton() {
+        sched::yield_point(103);
+        sched::yield_point(103);
+    } else {
+        std::thread::yield_now();
+    }
+}
+
 fn check_lazy_str(v: &LazyValue<'static>, decoded: &J, what: &str) -> Result<(), Violation> {
-    let got = libcall("as_str", || v.as_str().map(|s| s.to_string()))?;
+    // The `&str` borrows from the value, which stays alive: it must still read correctly after
+    // other threads have run (a decoding that is replaced or freed early shows up here, as poison).
+    let got: Option<&str> = libcall("as_str", || v.as_str())?;
+    hold_across_yields();
+    // (lossy copy: freed memory need not be UTF-8)
+    let got = libcall("read held &str", || got.map(|s| String::from_utf8_lossy(s.as_bytes()).into_owned()))?;
     let want = if let J::Str(s) = decoded { Some(s.clone()) } else { None };
     if got != want {
         return Err(Violation::new("mismatch/as_str", format!("{}: as_str = {:?}, model {:?}", what, got, want)));
@@ -241,8 +256,12 @@ fn navigate<'a>(v: &'a OwnedLazyValue, path: &[Step]) -> Option<&'a OwnedLazyVal
 
 fn check_owned_at(v: &OwnedLazyValue, model: &J, path: &[Step], use_pointer: bool, children: bool, what: &str) -> Result<(), Violation> {
     let want = gen::at_path(model, path);
+    // the child reference borrows from the shared value's published parse: hold it while others run
+    let got = libcall("navigate", || if use_pointer { v.pointer(&gen::to_pointer(path)) } else { navigate(v, path) })?;
+    if got.is_some() {
+        hold_across_yields();
+    }
     libcall("read", || {
-        let got = if use_pointer { v.pointer(&gen::to_pointer(path)) } else { navigate(v, path) };
         match (got, want) {
             (None, None) => Ok(()),
             (Some(g), Some(m)) => {
@@ -403,11 +422,57 @@ fn owned_scenario() -> SimResult {
     finish(results, &errs)?;
     let r = check_owned_at(&shared, &model, &[], false, true, "driver final read");
     let s = libcall("to_string(final)", || sonic_rs::to_string(&*shared))?;
-    libcall("drop original", move || drop(shared))?;
     r?;
     match s {
         Ok(s) => oracle::check_serialized(&s, &model, "driver final to_string")?,
         Err(e) => return Err(Violation::new("mismatch/serialize-error", format!("final: {}", e))),
+    }
+    // After the concurrent phase the driver is the only owner again: the cache a reader published
+    // is now taken out of its box by the first mutable access (or freed with the value).
+    match Arc::try_unwrap(shared) {
+        Ok(mut owned) => {
+            use sonic_rs::JsonValueMutTrait;
+            let mut m = model.clone();
+            match draw(3) {
+                0 => {}
+                1 => {
+                    tr!("driver: mutable access after the concurrent phase");
+                    let pushed = libcall("as_array_mut / as_object_mut", || {
+                        if let Some(a) = owned.as_array_mut() {
+                            a.push(OwnedLazyValue::from(true));
+                            1
+                        } else if let Some(o) = owned.as_object_mut() {
+                            o.append_pair(FastStr::new("\u{1}added"), OwnedLazyValue::from(()));
+                            2
+                        } else {
+                            0
+                        }
+                    })?;
+                    match (&mut m, pushed) {
+                        (J::Arr(a), 1) => a.push(J::Bool(true)),
+                        (J::Obj(o), 2) => o.push(("\u{1}added".into(), J::Null)),
+                        (J::Arr(_), _) | (J::Obj(_), _) => return Err(Violation::new("mismatch/as_container_mut", "as_array_mut/as_object_mut returned None on a container".to_string())),
+                        (_, 0) => {}
+                        _ => return Err(Violation::new("mismatch/as_container_mut", "a scalar answered as a mutable container".to_string())),
+                    }
+                }
+                _ => {
+                    tr!("driver: take after the concurrent phase");
+                    let taken = libcall("take", || owned.take())?;
+                    check_owned_at(&taken, &m, &[], false, true, "driver: taken value")?;
+                    check_owned_at(&owned, &J::Null, &[], false, false, "driver: value left by take")?;
+                    libcall("drop", move || drop(owned))?;
+                    owned = taken;
+                }
+            }
+            check_owned_at(&owned, &m, &[], false, true, "driver: read after mutable access")?;
+            let s = libcall("to_string(after mutable access)", || sonic_rs::to_string(&owned))?.map_err(|e| Violation::new("mismatch/serialize-error", format!("final: {}", e)))?;
+            oracle::check_serialized(&s, &m, "driver: to_string after mutable access")?;
+            libcall("drop original", move || drop(owned))?;
+        }
+        Err(shared) => {
+            libcall("drop original", move || drop(shared))?;
+        }
     }
     let _ = refjson::to_compact(&model);
     Ok(())
